@@ -551,6 +551,55 @@ def gen_routing(rng, big_ok=True):
     return vars_, cons, plant, (d + 1) ** k > 30000
 
 
+def gen_scaled(rng):
+    """Shape family with EQUAL non-unit coefficients on two variables and constants that are / are not
+    divisible by the coefficient: k*x +- c ~ k*y +- d, k*(x - y) ~ c, k*x - k*y ~ c, (x+x) ~ (y+y) + c,
+    for == and !=, alone or together with x == y / x != y / all_different; small domains."""
+    nv = rng.choice([2, 2, 3])
+    lo = rng.choice([-2, 0, 0, 1])
+    vars_ = [[lo, lo + rng.choice([1, 2, 3])] for _ in range(nv)]
+    x, y = rng.sample(range(nv), 2)
+    k = rng.choice([2, 3, -2])
+    c = rng.choice([-3, -2, -1, 0, 1, 2, 3, 4])
+    d = rng.choice([0, 0, 1, -1, 2])
+    V = lambda i: ["v", i]  # noqa: E731
+    C = lambda n: ["c", n]  # noqa: E731
+    kx = ["*", C(k), V(x)] if rng.random() < 0.5 else ["*", V(x), C(k)]
+    ky = ["*", C(k), V(y)] if rng.random() < 0.5 else ["*", V(y), C(k)]
+    form = rng.choice(["kx+c~ky+d", "k(x-y)~c", "kx-ky~c", "x+x~y+y+c", "kx~ky+c"])
+    if form == "kx+c~ky+d":
+        lhs = ["+", kx, C(c)] if rng.random() < 0.5 else ["-", kx, C(-c)]
+        rhs = ["+", ky, C(d)] if rng.random() < 0.5 else ["-", ky, C(-d)]
+    elif form == "k(x-y)~c":
+        lhs = ["*", ["-", V(x), V(y)], C(k)] if rng.random() < 0.5 else ["*", C(k), ["-", V(x), V(y)]]
+        rhs = C(c)
+    elif form == "kx-ky~c":
+        lhs, rhs = ["-", kx, ky], C(c)
+    elif form == "x+x~y+y+c":
+        lhs = ["+", V(x), V(x)]
+        rhs = ["+", ["+", V(y), V(y)], C(c)] if rng.random() < 0.5 else ["+", C(c), ["+", V(y), V(y)]]
+    else:
+        lhs, rhs = kx, (["+", ky, C(c)] if rng.random() < 0.5 else ["+", C(c), ky])
+    if rng.random() < 0.3:
+        lhs, rhs = rhs, lhs
+    op = "==" if rng.random() < 0.5 else "!="
+    cons = [[op, lhs, rhs]]
+    if _buildable(vars_, cons[0]) is None:  # e.g. a constant on the left of `-`: fall back to a plain form
+        cons = [[op, ["-", kx, ky], C(c)]]
+    extra = rng.random()
+    if extra < 0.25:
+        cons.append(["==", V(x), V(y)])
+    elif extra < 0.4:
+        cons.append(["!=", V(x), V(y)])
+    elif extra < 0.6:
+        cons.append(["alldiff", list(range(nv))])
+    elif extra < 0.7:
+        cons.append(gen_simple(rng, vars_, [lb for lb, _ in vars_]))
+    if rng.random() < 0.5:
+        cons.reverse()
+    return vars_, cons
+
+
 def gen_hidden(rng, vars_):
     """Mostly none; sometimes a few variables are declared without a name."""
     if rng.random() < 0.88:
